@@ -21,4 +21,18 @@ theorem C20_inspect_mentions (k : Kind) (m base : Xml) (ls : List Line) (hb : m.
     (hk : k ≠ .StorySend) (h : inspectLines k m = .ok ls) :
     ∀ x ∈ mentionIds k base, ∃ l ∈ ls, l.2 = pyStr x := inspect_mentions k m base ls hb hk h
 
+/-- non-vacuity for running-order documents: `inspect()` never looks at the timing metadata, so a
+    story duration that is not a number and an unparseable `roEdStart` are inside the domain -/
+def exC20ro : Xml := .node "mos" [] none none [.node "roCreate" [] none none
+  [.node "roID" [] (some "RO1") none [], .node "roSlug" [] (some "slug") none [],
+   .node "roEdStart" [] (some "junk") none [],
+   .node "story" [] none none [.node "storyID" [] (some "S1") none [],
+     .node "mosExternalMetadata" [] none none [.node "mosPayload" [] none none
+       [.node "StoryDuration" [] (some "00:01:30") none []]]]]]
+
+example : shapedInspect .RunningOrder exC20ro = true ∧
+    inspectLines .RunningOrder exC20ro = .ok [("RO: ", "slug"), ("STORY: ", "S1")] ∧
+    mentionIds .RunningOrder (.node "roCreate" [] none none
+      [.node "story" [] none none [.node "storyID" [] (some "S1") none []]]) = [some "S1"] := ⟨by decide, by rfl, by decide⟩
+
 end Mrm
